@@ -235,3 +235,20 @@ PROPS["C30"] = dict(
          "clear_push_file_diagnostics for it. The majority discipline (6 of 8 sites) defines the rule; the deviants are reported.",
     note="The first sentence (latest published set equals a fresh diagnosis once debounce timers settle) is timing/interleaving "
          "dependent and is not decided.")
+
+PROPS["C25"] = dict(
+    module="c25", func="run", level="other", crates=["emmylua_ls", "emmylua_code_analysis"],
+    technique="taint (client-derived offsets) + CFG dominance of a bounds comparison at every rowan API with a range precondition; siblings cross-check",
+    text="Decides the precondition-guard clause: every handler that feeds a client-derived offset/range to a rowan API that panics "
+         "on out-of-range input first compares it with the document's end (the idiom 12 handler files already use; the deviants "
+         "are reported), and to_rowan_range rejects reversed ranges.",
+    note="Semantic crashes deeper inside a handler are outside this rule. Trusted: rowan's documented preconditions, the source/guard tables in rules/c25.py.")
+
+PROPS["C40"] = dict(
+    module="c40", func="run", level="other", crates=["schema_to_emmylua"],
+    technique="panic-surface audit + fmt-template decoding from MIR with provenance/sanitiser analysis of values in quoted positions + who-may-write",
+    text="Decides two clauses: the converter has no undischarged panic site, and every schema-derived string placed inside double "
+         "quotes or on a one-line `# ` comment of the generated annotations passes a sanitiser that handles quote, backslash and "
+         "newline (otherwise the output does not parse); only emitter methods write the output.",
+    note="That the emitted text declares the reported root type is not decided. Sanitisers are recognised semantically (functions "
+         "returning String whose bodies mention the characters they must neutralise).")
